@@ -77,6 +77,8 @@ class Harness:
         self.note = ""
         self.mustfail = None        # marker fn name: CBMC MUST report a failure located inside it
         self.panic = None           # should_panic harness: the panic message that MUST be the (only) failure
+        self.l2 = False             # driver-generated composition instance (oracle names carry the property id)
+        self.safety = None          # properties for which a memory-safety failure of this harness counts
 
     @property
     def fq(self):
@@ -110,13 +112,17 @@ def parse_annot(h, text):
             h.panic = part[6:]
         elif part.startswith("note="):
             h.note = part[5:]
+        elif part == "l2":
+            h.l2 = True
+        elif part.startswith("safety="):
+            h.safety = part[7:].split(",")
         else:
             raise SystemExit("bad annotation part %r" % part)
 
 
-def discover():
+def discover(extra_files=()):
     hs = []
-    for path in sorted(glob.glob(os.path.join(KANI_DIR, "*.rs"))):
+    for path in sorted(glob.glob(os.path.join(KANI_DIR, "*.rs"))) + list(extra_files):
         base = os.path.basename(path)
         if base not in MODPATH:
             continue
@@ -195,6 +201,8 @@ def scan_assumptions(files):
     out = []
     for base in sorted(set(files)):
         path = os.path.join(KANI_DIR, base)
+        if not os.path.exists(path):
+            continue
         for i, line in enumerate(open(path), 1):
             if re.search(r"kani::assume\(|#\[kani::stub|kani::stub_verified|#\[kani::should_panic", line):
                 out.append("%s:%d: %s" % (base, i, line.strip()[:160]))
@@ -260,7 +268,21 @@ def main(a):
     if not a.keep:
         atexit.register(lambda: shutil.rmtree(scratch, ignore_errors=True))
     _, KANI_DIR = kanirun.snapshot(scratch, KANI_SRC)
-    hs_all = discover()
+    gen_path = os.path.join(scratch, "gen.rs")
+    n_l2 = 0
+    if meta.get("l2", pid == "ALL") and not os.environ.get("VERIF_NO_L2"):
+        import l2gen
+        insts = l2gen.generate(pid, a.tier, seed)
+        if a.only:
+            insts = [i for i in insts if a.only in i.name()]
+        cap = int(os.environ.get("VERIF_L2_MAX", meta.get("l2_max_" + a.tier, 100000)))
+        if len(insts) > cap:
+            import random as _r
+            _r.Random(seed).shuffle(insts)
+            insts = insts[:cap]
+        l2gen.write(gen_path, insts)
+        n_l2 = len(insts)
+    hs_all = discover([gen_path] if n_l2 else [])
     hs = [h for h in hs_all if pid in h.props or h.role == "canary" or pid == "ALL"]
     if a.tier == "quick":
         hs = [h for h in hs if h.tier == "quick"]
@@ -290,7 +312,7 @@ def main(a):
         for fs in feats:
             if fs not in fs_needed:
                 fs_needed.append(fs)
-            jobs.append({"fs": fs, "harness": h.fq, "timeout": h.timeout, "h": h, "weight": max(1, h.timeout // 60)})
+            jobs.append({"fs": fs, "harness": h.fq, "timeout": h.timeout, "h": h, "weight": max(1, h.timeout // 60) if not h.l2 else 1, "noreach": h.l2})
     build_times = {}
     tdirs = {fs: os.path.join(scratch, "target-" + fs) for fs in fs_needed}
     import concurrent.futures as _cf
@@ -307,6 +329,7 @@ def main(a):
     # ---------------------------------------------------------------- verdict
     known = load_known()
     violations = []     # (harness, fs, obligation, kind)
+    other_prop = []     # L2 failures that belong to another property's check
     undecided = []
     known_hit = []
     n_checks = n_ok = n_unreach = 0
@@ -379,8 +402,27 @@ def main(a):
         if not real:
             undecided.append("%s [%s]: FAILED without failed checks" % (h.name, r["fs"]))
             continue
+        inv_only = []
+        took = 0
         for c in real:
-            violations.append((h, r, c, classify_failure(c)))
+            k = classify_failure(c)
+            if h.l2:
+                d = c["description"]
+                m = re.match(r"(C\d\d)::", d)
+                if k == "named" and m and m.group(1) != pid:
+                    other_prop.append("%s: %s" % (h.name, d))      # reported by that property's own check
+                    continue
+                if k == "named" and d.startswith("Inv_idle::"):
+                    inv_only.append(d)
+                    continue
+                if k == "safety" and h.safety and pid not in h.safety:
+                    other_prop.append("%s: %s" % (h.name, d))
+                    continue
+            violations.append((h, r, c, k))
+            took += 1
+        if inv_only and not took:
+            # an invariant clause alone is not a property violation (DESIGN 2.3 step 5): undecided
+            undecided.append("%s [%s]: invariant clause failed without a behavioural witness: %s" % (h.name, r["fs"], "; ".join(sorted(set(inv_only)))[:300]))
 
     if not canary_ok and not a.only:
         undecided.append("canary harness did not fail: the pipeline cannot see failures")
@@ -415,9 +457,21 @@ def main(a):
         by_h = {}
         for (h, r, c, k) in new_viol:
             by_h.setdefault((h.fq, r["fs"]), []).append((h, r, c, k))
-        for (fq, fs), items in by_h.items():
+        import concurrent.futures as _cf2
+        keys = list(by_h.keys())
+
+        def _do(i):
+            items = by_h[keys[i]]
             h, r = items[0][0], items[0][1]
-            path, found_input = replay.make_replay(pid, h, r, [c for (_, _, c, _) in items], tdirs[fs], scratch)
+            fs = keys[i][1]
+            # counterexample extraction for the first 6 failing harnesses only (time budget); the
+            # others still get a replay file naming the failed obligation and the verifier output
+            return replay.make_replay(pid, h, r, [c for (_, _, c, _) in items], tdirs[fs], scratch, extract=(i < 6))
+        with _cf2.ThreadPoolExecutor(max_workers=3) as ex:
+            outs = list(ex.map(_do, range(len(keys))))
+        for i, (path, found_input) in enumerate(outs):
+            items = by_h[keys[i]]
+            h, fs = items[0][0], keys[i][1]
             replay_paths.append(path)
             obs = "; ".join(sorted(set(c["description"] for (_, _, c, _) in items)))[:300]
             print("FAILED-OBLIGATION property=%s harness=%s features=%s obligation=%s" % (pid, h.name, fs, obs))
@@ -475,6 +529,8 @@ def main(a):
         "solver_time_s": round(sum((p["solver_s"] or 0) for p in per_harness), 2),
         "build_time_s": {k: round(v, 1) for k, v in build_times.items()},
         "undecided": undecided,
+        "failures_attributed_to_other_properties": other_prop[:40],
+        "l2_instances": n_l2,
         "known_findings_hit": [kf["what"] for kf, _ in known_hit],
         "repo_head": subprocess.run(["git", "-C", kanirun.REAL_REPO, "rev-parse", "HEAD"], stdout=subprocess.PIPE, text=True).stdout.strip(),
         "repo_dirty": bool(subprocess.run(["git", "-C", kanirun.REAL_REPO, "status", "--porcelain", "--untracked-files=no"], stdout=subprocess.PIPE, text=True).stdout.strip()),
